@@ -358,6 +358,28 @@ func (c *c09) attempt(cs c09Case, setup bool) error {
 			c.violation("listing-mismatch", "listed roots differ from the model slice", cs,
 				map[string]any{"listed": shortRoots(out.listed), "model": shortRoots(c.model)})
 		}
+		if cs.Kind == "append" {
+			for i, h := range post.State.Roots {
+				if ok, _ := c.lab.Sectors.HasSector(h); !ok {
+					c.broken = true
+					c.violation("contract-lists-unstored-sector", "after an append the contract lists a sector root the host does not store", cs,
+						map[string]any{"position": i, "root": h, "host_roots": shortRoots(post.State.Roots)})
+					break
+				}
+			}
+			unk := map[string]int{}
+			for _, b := range cs.Batch {
+				if b == "unkA" || b == "unkB" {
+					unk[b]++
+				}
+			}
+			if unk["unkA"] > 1 || unk["unkB"] > 1 {
+				c.r.Count("append_batches_with_repeated_unknown_roots", 1)
+			}
+			if n := len(cs.Batch); n > 1 && slices.Contains(cs.Batch, "same") {
+				c.r.Count("append_batches_with_repeated_stored_root", 1)
+			}
+		}
 		c.model = slices.Clone(post.State.Roots)
 		if n := len(c.revs); n == 0 || c.revs[n-1].RevisionNumber < post.State.Revision.RevisionNumber {
 			c.revs = append(c.revs, post.State.Revision)
@@ -499,6 +521,17 @@ func (c *c09) batchRoots(batch []string) []types.Hash256 {
 			} else {
 				out = append(out, c.stored[0].Root)
 			}
+		case "same":
+			// one fresh stored root, the same at every occurrence
+			if len(fresh) > 0 {
+				out = append(out, fresh[len(fresh)-1])
+			} else {
+				out = append(out, c.stored[0].Root)
+			}
+		case "unkA":
+			out = append(out, rhplab.UnknownRoot(1000)) // the same unknown root at every occurrence
+		case "unkB":
+			out = append(out, rhplab.UnknownRoot(1001))
 		default:
 			out = append(out, rhplab.UnknownRoot(nu))
 			nu++
@@ -986,6 +1019,19 @@ func c09Jobs(r *mon.Run) []c09Job {
 				})
 			}
 		}
+		// the same root several times in one batch, for roots the host does not
+		// store and for roots it stores: every occurrence of a stored root is
+		// appended, every occurrence of an unknown root is skipped
+		for n := 0; n <= 3; n++ {
+			for _, via := range []string{"raw", "honest"} {
+				for _, b := range [][]string{
+					{"new", "unkA", "new", "unkA"}, {"unkA", "unkA"}, {"unkA", "new", "unkA", "unkA"}, {"unkA", "unkB", "unkA", "unkB"},
+					{"same", "same"}, {"same", "unkA", "same"}, {"unkA", "same", "unkA", "same"}, {"dup", "unkA", "dup", "unkA"}, {"unkA", "unkA", "unkA"},
+				} {
+					cases = append(cases, c09Case{Kind: "append", Via: via, N: n, Batch: b, List: "full"})
+				}
+			}
+		}
 		jobs = append(jobs, c09Job{name: "D-append-batches", cases: cases})
 	}
 
@@ -1145,6 +1191,7 @@ func runC09(r *mon.Run, replay string) {
 	r.Floor("rpcs_succeeded_after_chain_event", 60)
 	r.Floor("renewals_with_capacity_above_filesize", 20)
 	r.Floor("multi_contract_rounds", 200)
+	r.Floor("append_batches_with_repeated_unknown_roots", 30)
 	r.Floor("three_actor_rounds", 40)
 	r.Floor("three_actor_contenders_refused", 80)
 	r.Floor("three_actor_listings_verified", 30)
